@@ -119,6 +119,11 @@ def build_book(r, tier):
             text = "\n".join("".join("%s %s\n" % kv for kv in rec) for rec in recs)
         if text.endswith("\n") and fmt not in ("json",) and n > 0 and r.chance(0.3):
             text = text[:-1]  # no trailing newline at end of file
+        ck = r.choice(["", "", "", "", "gz", "z", "bz2"])
+        if ck:
+            # compressed by extension: the decompressor wraps the file handle (which must still be closed at end of file)
+            nm = nm + "." + ck
+            text = {"gz": lambda b: gzip.compress(b, mtime=0), "z": zlib.compress, "bz2": bz2.compress}[ck](text.encode()).decode("latin1")
         files[nm] = text
         names.append(nm)
         for j, rec in enumerate(recs):
@@ -142,23 +147,29 @@ def build_book(r, tier):
 
 def eval_book(case, chk):
     vd = Verdict()
-    kw = {"files": {k: v.encode() for k, v in case["files"].items()}}
+    kw = {"files": {k: v.encode("latin1") for k, v in case["files"].items()}}
     if case.get("configs") is None:
         rng = Rng(case["cseed"], "cfg")
         cfgs = c04.gen_configs(rng, None, case["nconf"], batches=[case["batch"], case["batch"], 1, 2, 3, 500])
         for c in cfgs:
             c.pop("flags", None)
+            if len(case["files"]) >= 3 and rng.chance(0.5):
+                # a process may hold few descriptors (ulimit -n): files are read one after the other, so two input
+                # handles at a time must be enough however many files are named
+                c["rfd_limit"] = 2
         case["configs"] = cfgs
     for cfg in case["configs"]:
         r = chk.pool.run1(mkspec(c04.perturb_args(case["args"], cfg), sched=cfg["sched"], knobs=cfg.get("knobs"), chunk=cfg.get("chunk"),
-                                 rtseed=cfg.get("rtseed", 1), **kw))
+                                 rtseed=cfg.get("rtseed", 1), rfd_limit=cfg.get("rfd_limit", 0), **kw))
+        if cfg.get("rfd_limit"):
+            vd.notes["runs_with_input_descriptor_limit"] = vd.notes.get("runs_with_input_descriptor_limit", 0) + 1
         vd.runs.append(r)
         cfgs_ = json.loads(json.dumps(cfg))
         if r.status != "exit":
             vd.add("no-termination" if r.status in ("deadlock", "livelock") else r.status, config=cfgs_, blocked=r.blocked[:10], text=r.panic_text[-600:])
             break
         if r.code != 0:
-            vd.add("fails", config=cfgs_, stderr=r.stderr[:300].decode("utf-8", "replace"))
+            vd.add("fails", config=cfgs_, stderr=r.stderr[:300].decode("utf-8", "replace"), fired=r.fired[:2], max_open_inputs=r.max_open_r)
             break
         try:
             got = json.loads(r.stdout.decode()) if r.stdout.strip() else []
